@@ -132,7 +132,7 @@ func c16SrvEval(tier string, i int) CaseResult {
 		rp1 := NewRawPeer(r)
 		if cs.Mode == "ls" {
 			if err := rp1.OpenStream(); err != nil {
-				viol = append(viol, V("harness", "%v", err))
+				viol = append(viol, V("setup-handshake-fails", "setting the scenario up with well-behaved peers fails: %v", err))
 				return
 			}
 		}
@@ -243,7 +243,7 @@ func c16CliEval(tier string, i int) CaseResult {
 		}
 		cl, err := ss.client()
 		if err != nil {
-			viol = append(viol, V("harness", "%v", err))
+			viol = append(viol, V("setup-handshake-fails", "setting the scenario up with well-behaved peers fails: %v", err))
 			return
 		}
 		var m c16Model
